@@ -125,7 +125,12 @@ func (s *SenderInterceptor) BindRemoteStream(
 			sequenceNumber: header.SequenceNumber,
 			ecn:            0, // ECN is not supported (yet).
 		}
-		s.packetChan <- p
+		select {
+		case s.packetChan <- p:
+		case <-s.close:
+			// the loop that records packets is gone (or was never started and
+			// never will be): pass the packet through instead of blocking the reader
+		}
 
 		return i, attr, nil
 	})
